@@ -26,20 +26,24 @@ RULE = ("cases: random trees (1..6 nodes quick, ..8 thorough; random child order
         "x random Hamiltonians with pairwise distinct label assignments (1..8 terms, supports 1..N, unit / Fraction / "
         "symbolic coefficients, distinct symbols independent), generic numeric values; plus an adversarial "
         "stream: coefficient matrices L*R of prescribed low rank across a chosen edge, optionally scaled "
-        "per row / per column by symbols; method SGE (bond vs numerical "
+        "per row / per column by symbols, and a planted stream (2..4 nodes, per-entry symbols, tied rows/columns, rank "
+        "exposed only by one specific rational row or column operation); method SGE (bond vs numerical "
         "Schmidt rank on every edge) and BASE (vertex counts vs Lean model).  non-trivial = >= 2 terms, >= 2 nodes "
         "and some edge whose Schmidt rank is smaller than the number of terms")
 PARTIAL = [
     "bond(SGE) <= operator Schmidt rank for every distinct-term Hamiltonian is the research claim of the method "
-    "(combine_subtrees, Gamma matrix, symbolic elimination, vertex cover); it is not proved: it is decided per input by "
-    "the numerical Schmidt rank of the dense Hamiltonian with generic values",
+    "(combine_subtrees, Gamma matrix, symbolic elimination, vertex cover); it is not proved and false of the code in two "
+    "recorded ways (F-C12c: single-cut limitation with symbolic ratios; F-C12a: sequence effect); it is decided per "
+    "input by the numerical Schmidt rank of the dense Hamiltonian with generic values",
     "proved around it: bond_eq_cover (the bond created at a cut = |Cu|+|Cv| of the chosen cover, bilinear routing), "
     "cover_ge_rank (a cover of the support of a matrix is at least its rank), bond_ge_schmidt_rank (no exact "
     "factorisation through r indices represents an operator of Schmidt rank > r); the identification of a TTNO's edge "
     "cut with such a factorisation and the optimality of the elimination + minimum cover (rank reached) are not proved",
     "genericity is sampled (random complex values), not symbolic",
 ]
-ASSUMPTIONS = ["numerical rank threshold 1e-9 relative to the largest singular value; dense dimension <= 72 (quick) / 216"]
+ASSUMPTIONS = ["numerical rank threshold 1e-9 relative to the largest singular value; dense dimension <= 72 (quick) / 216",
+               "the classification of F-C12c asks the Lean model of gaussian_elimination of property C13 through the "
+               "driver (`C13 gauss`); if that answer cannot be parsed the failure is reported with finding None"]
 
 RANK_TOL = 1e-9
 
@@ -134,6 +138,250 @@ def gen_lowrank_case(rng: random.Random, max_nodes: int, max_dim: int) -> Dict[s
     raise common.HarnessError("could not generate a low-rank C12 case")
 
 
+def gen_planted_case(rng: random.Random, max_nodes: int = 4, max_dim: int = 72) -> Dict[str, Any]:
+    """Structured symbolic low-rank Gamma across one edge of a 2..4-node tree, per-entry symbols.
+
+    Start from a sparse reduced matrix whose rows are either *tied* (all entries of row i carry the symbol s_i) or
+    *free* (arbitrary symbol per entry); then apply a few rational column operations col_j += q*col_j' that are
+    only allowed when col_j' vanishes on the free rows (so every entry stays a single monomial).  The rank is then
+    exposed only by undoing those column operations (zeros of the source column meet symbolic targets).  With
+    probability 1/2 the transposed construction (row operations, tied columns) is used.  Example produced by this
+    scheme: [[a, d, 0], [b, 0, b], [c, 0, c]] (rank 2, needs col_0 -= col_2)."""
+    for _ in range(400):
+        n = rng.choice([2, 2, 2, 3, 3, 4][: max(1, 2 * (max_nodes - 1))])
+        par = gen.random_parent_array(rng, n)
+        order = gen.insertion_order(rng, par)
+        dims = [rng.choice([2, 3, 3]) for _ in range(n)]
+        while int(np.prod(dims)) > max_dim:
+            i = rng.randrange(n)
+            dims[i] = {3: 2, 2: 1, 1: 1}[dims[i]]
+        case = {"kind": "rank", "stream": "planted", "par": par, "order": order, "dims": dims}
+        pd = c01.site_dims(case)
+        c = rng.randrange(1, n)
+        A = subtree_nodes(par, c)
+        B = [i for i in range(n) if i not in A]
+
+        def strings(S, k):
+            out: List[Dict[str, str]] = []
+            for _try in range(80):
+                if len(out) == k:
+                    break
+                ops = {}
+                for s_ in S:
+                    if pd[s_] > 1 and rng.random() < 0.8:
+                        ops[f"n{s_}"] = f"X{pd[s_]}_{rng.randrange(c01.LABELS_PER_DIM)}"
+                if ops not in out:
+                    out.append(ops)
+            return out
+        m, nn = rng.randint(2, 4), rng.randint(2, 4)
+        us, vs = strings(A, m), strings(B, nn)
+        m, nn = len(us), len(vs)
+        if m < 2 or nn < 2:
+            continue
+        transposed = rng.random() < 0.5
+        R_, C_ = (nn, m) if transposed else (m, nn)          # work on an R_ x C_ matrix, transpose at the end
+        pool = ["a", "b", "c", "d", "e", "f", "1"]
+        rowsym = {i: rng.choice(pool[:5]) for i in range(R_)}
+        M: List[List[Any]] = [[None] * C_ for _ in range(R_)]
+        if rng.random() < 0.7 and min(R_, C_) >= 2:
+            # planted cover: a few covering rows (free symbols) and covering columns (tied rows), everything else 0
+            total = rng.randint(1, min(R_, C_) - 1)
+            n_cv = rng.randint(1, total)
+            n_ru = min(total - n_cv, R_ - 1)
+            free = set(rng.sample(range(R_), n_ru))
+            cov_cols = rng.sample(range(C_), min(n_cv, C_))
+            for i in free:
+                for j in range(C_):
+                    if j not in cov_cols and rng.random() < 0.8:
+                        M[i][j] = (Fraction(rng.choice([1, 1, 2, -1, 3])), rng.choice(pool))
+            for j in cov_cols:
+                for i in range(R_):
+                    if i not in free and rng.random() < 0.85:
+                        M[i][j] = (Fraction(rng.choice([1, 1, 2, -1, 3])), rowsym[i])
+            sources = cov_cols
+        else:
+            nfree = rng.choice([0, 1, 1, 2]) if R_ > 2 else rng.choice([0, 1])
+            free = set(rng.sample(range(R_), min(nfree, R_ - 1)))
+            for i in range(R_):
+                for j in range(C_):
+                    if rng.random() < 0.45:
+                        q = Fraction(rng.choice([1, 1, 1, 2, -1, 3]))
+                        M[i][j] = (q, rng.choice(pool) if i in free else rowsym[i])
+            sources = list(range(C_))
+        for _op in range(rng.choice([1, 1, 2, 3])):
+            j2 = rng.choice(sources)
+            j = rng.choice([x for x in range(C_) if x != j2])
+            if any(M[i][j2] is not None for i in free):
+                continue
+            q = Fraction(rng.choice([1, 1, -1, 2]))
+            for i in range(R_):
+                if M[i][j2] is None:
+                    continue
+                if M[i][j] is not None and M[i][j][1] != rowsym[i]:
+                    break                       # would need a sum of two symbols in one entry
+                cur = M[i][j][0] if M[i][j] is not None else Fraction(0)
+                new = cur + q * M[i][j2][0]
+                M[i][j] = (new, rowsym[i]) if new != 0 else None
+        if transposed:
+            M = [list(r) for r in zip(*M)]
+        terms = []
+        for i in range(m):
+            for j in range(nn):
+                if M[i][j] is None:
+                    continue
+                ops = dict(us[i])
+                ops.update(vs[j])
+                if not ops:
+                    ops = {"n0": f"I{pd[0]}"}
+                q, sym = M[i][j]
+                terms.append([q.numerator, q.denominator, sym, ops])
+        if len(terms) < 2:
+            continue
+        rng.shuffle(terms)
+        case["terms"] = terms
+        case["vseed"] = rng.randrange(10 ** 9)
+        if c01.classify(case)["dup_assign"]:
+            continue
+        return case
+    raise common.HarnessError("could not generate a planted C12 case")
+
+
+# ------------------------------------------------------------------ structure of the recorded defect F-C12a
+
+def exact_matrix(case, c: int) -> List[List[Optional[Tuple[Fraction, str]]]]:
+    """Exact coefficient matrix of the Hamiltonian across the edge above node c: rows = distinct label tuples on the
+    subtree of c, columns = distinct label tuples on the other nodes, entry = (Fraction, symbol) of the unique term
+    with that pair (assignments are pairwise distinct), None if there is none."""
+    n = len(case["par"])
+    A = subtree_nodes(case["par"], c)
+    B = [i for i in range(n) if i not in A]
+    rows: List[Any] = []
+    cols: List[Any] = []
+    ent: Dict[Any, Any] = {}
+    for t in case["terms"]:
+        a = c01.padded_assignment(case, t)
+        ra, cb = tuple(a[i] for i in A), tuple(a[i] for i in B)
+        if ra not in rows:
+            rows.append(ra)
+        if cb not in cols:
+            cols.append(cb)
+        ent[(rows.index(ra), cols.index(cb))] = (Fraction(t[0], t[1]), t[2])
+    return [[ent.get((i, j)) for j in range(len(cols))] for i in range(len(rows))]
+
+
+def symbol_proportional_pairs(M) -> List[Tuple[int, int]]:
+    """Pairs of rows that are proportional over the rational functions with a NON-constant ratio: same support, one
+    rational ratio q and one pair of different symbols (s, s') such that row_i = q*(s/s')*row_k entry by entry."""
+    pairs = []
+    for i in range(len(M)):
+        for k in range(i + 1, len(M)):
+            si = [j for j, x in enumerate(M[i]) if x is not None]
+            sk = [j for j, x in enumerate(M[k]) if x is not None]
+            if si != sk or not si:
+                continue
+            syms = {(M[i][j][1], M[k][j][1]) for j in si}
+            ratios = {M[i][j][0] / M[k][j][0] for j in si}
+            if len(syms) == 1 and len(ratios) == 1:
+                s1, s2 = next(iter(syms))
+                if s1 != s2:
+                    pairs.append((i, k))
+    return pairs
+
+
+def earlier_cut(case, p: int, c: int) -> bool:
+    """Another cut has already rewritten the hyperedges of the parent p when the edge (p, c) is cut (BFS order of
+    from_hamiltonian_modified): p is not the root, or c is not the first child of p in reference order."""
+    if case["par"][p] >= 0:
+        return True
+    kids = [x for x in case["order"] if case["par"][x] == p]
+    return bool(kids) and kids[0] != c
+
+
+def max_matching(support: List[Tuple[int, int]], nrows: int) -> int:
+    """Size of a maximum matching of a bipartite graph (= size of a minimum vertex cover, Koenig)."""
+    adj: Dict[int, List[int]] = {i: [] for i in range(nrows)}
+    for i, j in support:
+        adj[i].append(j)
+    match: Dict[int, int] = {}
+
+    def aug(i, seen):
+        for j in adj[i]:
+            if j in seen:
+                continue
+            seen.add(j)
+            if j not in match or aug(match[j], seen):
+                match[j] = i
+                return True
+        return False
+    return sum(1 for i in range(nrows) if aug(i, set()))
+
+
+def model_direct_bond(lean, M) -> Optional[int]:
+    """Bond the RECORDED algorithm creates when it cuts a matrix M directly: the Lean model of
+    `gaussian_elimination` (driver of property C13) reduces M to M'; the bond is the smaller of the minimum vertex
+    covers of supp M' and supp M (keep-the-better rule).  None if the model cannot be asked."""
+    syms = sorted({x[1] for r in M for x in r if x is not None and x[1] != "1"})
+    sid = {sname: k + 1 for k, sname in enumerate(syms)}
+
+    def tok(x):
+        if x is None:
+            return "n:0/1"
+        q, sname = x
+        if sname == "1":
+            return f"n:{q.numerator}/{q.denominator}"
+        return f"s:{q.numerator}/{q.denominator}:{sid[sname]}"
+    rows, cols = len(M), len(M[0])
+    try:
+        out = lean.batch([f"C13 gauss {rows} {cols} " + " ".join(tok(x) for r in M for x in r)])[0]
+        parts = out.split("|")
+        head = parts[0].split()
+        if head[0] != "ok":
+            return None
+        p_, q_ = int(head[2]), int(head[3])
+        ent = parts[2].split()
+        if len(ent) != p_ * q_:
+            return None
+        supp_red = []
+        for k, e in enumerate(ent):
+            f = e.split(":")
+            num = int(f[1].split("/")[0])
+            if num != 0:
+                supp_red.append((k // q_, k % q_))
+    except Exception:       # noqa: BLE001
+        return None
+    supp_raw = [(i, j) for i in range(rows) for j in range(cols) if M[i][j] is not None]
+    return min(max_matching(supp_red, p_), max_matching(supp_raw, rows))
+
+
+def classify_edge(lean, case, item) -> Optional[str]:
+    """Recorded defect an edge with bond > Schmidt rank belongs to, or None.  Preconditions checked by the caller:
+    method SGE, TTNO exact and well-formed, pairwise distinct assignments, non-zero prefactors.
+
+    F-C12c  the edge is the FIRST cut of the construction (root - first child in reference order, so the Gamma matrix
+            of that cut is exactly the coefficient matrix of the Hamiltonian across the edge) and the bond equals
+            the bond the RECORDED algorithm yields on that matrix (Lean model of gaussian_elimination, property C13,
+            + minimum vertex cover of supp M' and supp M): the elimination uses rational multipliers and one monomial
+            per entry only, so a dependency with symbolic coefficients stays invisible.  A bond different from the
+            model's (e.g. a regression inside the elimination) is NOT this defect.
+    F-C12a  >= 3 nodes, the edge is cut after another cut has rewritten the hyperedges of its parent (parent is not
+            the root, or the child is not the root's first child) and the exact coefficient matrix across the edge
+            itself carries at least two different symbols (counting "1").  (A pair of rows/columns proportional with a
+            symbol ratio is present in 50 of 57 recorded hits but not in all: the dependency can be a symbol multiple
+            of a rational combination of several rows, e.g. [[-1,0,1,1],[2g,g,-2g,-2g],[0,1,0,0]].)"""
+    (pid, cid), bond, rank = item
+    p, c = int(pid[1:]), int(cid[1:])
+    if len({t[2] for t in case["terms"]}) < 2:
+        return None
+    M = exact_matrix(case, c)
+    if not earlier_cut(case, p, c):
+        bm = model_direct_bond(lean, M)
+        return "F-C12c" if (bm is not None and bm == bond) else None
+    if len(case["par"]) < 3:
+        return None
+    local_syms = {x[1] for row in M for x in row if x is not None}
+    return "F-C12a" if len(local_syms) >= 2 else None
+
+
 def subtree_nodes(par: List[int], c: int) -> List[int]:
     n = len(par)
     inside = {c}
@@ -193,6 +441,9 @@ def run(ctx):
     # adversarial low-rank stream (hits the recorded defect F-C12a about once in 4000 cases)
     for k in range(ctx.n(4000, 40000)):
         cases.append(gen_lowrank_case(rng, min(max_nodes, 5), max_dim))
+    # planted symbolic low-rank stream on 2..4-node trees (needs a specific row / column operation)
+    for k in range(ctx.n(1500, 15000)):
+        cases.append(gen_planted_case(rng, 4, max_dim))
     cases.extend(fixed_cases())
     lines = []
     for c in cases:
@@ -291,7 +542,7 @@ def run_case(ctx, case, model_out: Optional[List[str]] = None):
             hp = c01.build_hamiltonian(case, conv, cm).pad_with_identities(ref)
             sd = StateDiagram.from_hamiltonian(hp, ref, c01._methods()["SGE"])
             if not c01.diagram_problems(sd, ref) and c01.fc01d_input(case) and \
-                    c01.partial_coefficient_loss(c01.diagram_formal_sum(sd, ref), c01.expected_formal(case)):
+                    c01.fc01d_deviation(c01.diagram_formal_sum(sd, ref), c01.expected_formal(case)):
                 fid = "F-C12b"
         except Exception:       # noqa: BLE001
             fid = None
@@ -311,11 +562,14 @@ def run_case(ctx, case, model_out: Optional[List[str]] = None):
             # impossible for an exact TTNO (theorem bond_ge_rank): the oracle itself would be wrong
             ctx.oracle_fail(case, f"bond smaller than the Schmidt rank on {below[:3]} although the TTNO is exact")
         else:
-            msg = ", ".join(f"{e[0]}-{e[1]}: bond {b} > Schmidt rank {r}" for e, b, r in bad[:4])
-            # recorded defect F-C12a: exact TTNO (checked above), distinct assignments (checked on entry), bond ABOVE
-            # the rank (this branch) and at least two different coefficient symbols (counting "1") in the input
-            fid = "F-C12a" if len({t[2] for t in terms}) >= 2 else None
-            ctx.oracle_fail(case, f"SGE bond dimension not minimal: {msg}", finding=fid)
+            # exact TTNO (checked above), distinct assignments (checked on entry), bond ABOVE the rank (this branch):
+            # every such edge is classified on its own (see `classify_edge`); one failure per class
+            groups: Dict[Optional[str], List[Any]] = {}
+            for item in bad:
+                groups.setdefault(classify_edge(ctx.lean, case, item), []).append(item)
+            for fid in sorted(groups, key=lambda x: (x is not None, x or "")):
+                msg = ", ".join(f"{e[0]}-{e[1]}: bond {b} > Schmidt rank {r}" for e, b, r in groups[fid][:4])
+                ctx.oracle_fail(case, f"SGE bond dimension not minimal: {msg}", finding=fid)
         ctx.tally("outcome", "not-minimal")
     else:
         ctx.tally("outcome", "minimal")
